@@ -27,6 +27,10 @@ import MW.Lemmas.RemoveInterleave6Ex
 import MW.Lemmas.RemoveJoinEx
 import MW.Lemmas.RemoveFlaggedEx
 import MW.Lemmas.RemoveSimEx
+import MW.Lemmas.RemoveSimWEx
+import MW.Lemmas.RemoveSimWConn
+import MW.Lemmas.RemoveSimWFrame
+import MW.Lemmas.RemoveUpperW
 namespace MW.Props.C08
 open MW MW.Model.Ledger MW.Model.Remove MW.Lemmas.RemoveScan MW.Lemmas.RemoveStep MW.Lemmas.RemoveFrame
   MW.Lemmas.RemoveProgress
@@ -842,8 +846,10 @@ example (o : StepOut) (h : removeStep 20000 (MW.Lemmas.PendHist.exE.ctx MW.Lemma
     (`remove_interleaved_cex_repaired`), every removal step keeps "each credit / debit has its tx record", which is what
     Rollback needs to reach them (`remove_step_keeps_reach`), and the proved domains are unchanged (`remove_interleaved_ext`,
     `…_above`, `…_above_nopend`, `remove_after_follower_projects`).  Not proved: reorganisations between two steps that go
-    below the tip the follower had at the first step, in general (needs `MW.Lemmas.RemoveSim.Sub` with the wallet-keyed
-    buckets of `w` allowed to differ, and `MW.Lemmas.RemoveSimRb.disconnectBlock_sim` without `NewEq`). -/
+    below the tip the follower had at the first step, in general.  Round 7 proved the building blocks (section Round7
+    below: the relaxed relation `SubW` through removal steps, one / any number of disconnected blocks without `NewEq`,
+    the connect step, the relaxed in-progress invariant `MidUW` with its finishing step); what is missing is `MidUW`
+    across a block at or below the flag height, the assembly, and that Rollback does not fail on stale entries of `w`. -/
 def remove_interleaved_projects_full : Prop :=
   ∀ (limit : Nat) (c : Ctx) (w : Wid) (addrs : List Addr) (own' : Own) (G : Block) (x0 x : ISt) (evs : List IEv)
     (ws' : List Wid),
@@ -1119,6 +1125,112 @@ theorem remove_upper_join {c : Ctx} {w : Wid} {addrs : List Addr} {own' : Own} {
     UpperOK c w own' chain (joinBookK c w own' chain k) := upperOK_join H hKN hk
 
 end Round5
+
+
+-- ------------------------------------------------------------------ Round 7: reorganisations BELOW the floor, step by step
+section Round7
+open MW.Lemmas.RemoveSim MW.Lemmas.RemoveSimW MW.Lemmas.RemoveKeep MW.Lemmas.RemoveUpper MW.Lemmas.RemoveInv
+  MW.Lemmas.RemoveInterleave MW.Lemmas.Ledger MW.Lemmas.LedgerWFCred MW.Spec.Chain MW.Spec.Books
+
+/-- **remove_relaxed_step** (step 1 towards the full interleaving statement).  `SubW w addrs g s`: the real store `s` is
+    the ghost store `g` (the store as it would be had no removal step run) minus credits paying `addrs` — each with its
+    debit (`debGone`) —, minus tx records, with the block records trimmed accordingly (`BlkRel`); the buckets keyed by
+    wallet id agree OFF `w` only (after a rollback below the floor the entries of `w` are stale on the real store).  A
+    removal step that does not finish keeps the relation (the ghost is fixed). -/
+theorem remove_relaxed_step {limit : Nat} {c : Ctx} {w : Wid} {addrs : List Addr} {g s : Store} {o : StepOut}
+    (hne : addrs ≠ []) (hG : SubW w addrs g s) (hn : KeysNodup s.credits) (hGD : GhostDeb g) (hGB : GhostBlk g)
+    (h : removeStep limit c w addrs s = some o) (hf : o.finish = false) : SubW w addrs g o.s :=
+  subW_removeStep_parked hne hG hn hGD hGB h hf
+
+/-- non-vacuity: the first step (size 1) of the D45 history — the real store then lacks the credit (C1, B1, 1) and the
+    debit (X3, B2, 1) which the ghost has -/
+example : SubW "W2" ["A2"] MW.Lemmas.RemoveMidCex.stF s1 ∧
+    AMap.get s1.credits ⟨"C1", ⟨1, "B1"⟩, 1⟩ = none ∧
+    (AMap.get MW.Lemmas.RemoveMidCex.stF.credits ⟨"C1", ⟨1, "B1"⟩, 1⟩).isSome = true := ⟨subW_s1, s1_lacks.1, s1_lacks.2.1⟩
+
+/-- **remove_disconnect_below** (step 2).  ONE block disconnected under the relaxed relation, WITHOUT `NewEq` (the
+    records under the block need not agree: the block may have been connected before the first removal step).  `g` has
+    its tip at height `h`, `s` is `g` minus records of `w`, every credit / debit left in `s` has its tx record (`Reach`,
+    kept by every removal step since the D45 repair: `remove_step_keeps_reach`), the ghost's credits pay the address of
+    the output they record (`GhostCV`), `addrs` are `w`'s in the keystore view (`OwnW`).  If `disconnectBlock` succeeds on
+    both stores — in `irun … = some x` every notification succeeded on the real store, the ghost succeeds by
+    `remove_flagged_follower_keeps` — the results are related again, and `Reach` of the new real store follows from
+    `Reach` of the new ghost.  What the ghost rolls back alone (records the real store lacks) touches only entries keyed
+    by `w`.  NOT decided here: whether Rollback can fail on the real store on stale entries of `w`. -/
+theorem remove_disconnect_below {c : Ctx} {w : Wid} {addrs : List Addr} {g s g' s' : Store} {h : Nat}
+    (hOwn : OwnW c w addrs) (hSub : SubW w addrs g s) (hR : Reach s) (hCV : GhostCV c g) (hh : g.syncedTo = h)
+    (hg : disconnectBlock c g h = .ok g') (hs : disconnectBlock c s h = .ok s') :
+    SubW w addrs g' s' ∧ (Reach g' → Reach s') := disconnectBlock_rel hOwn hSub hR hCV hh hg hs
+
+/-- non-vacuity: on the D45 history the tip block B2 — connected BEFORE the first removal step; X3's debit of the
+    deleted credit is under it — is disconnected on the flagged store and on the store after the first step -/
+example : ∃ g' s', disconnectBlock { MW.Lemmas.RemoveMidCex.ctx with node := MW.Lemmas.RemoveMidCex.nodeB }
+      MW.Lemmas.RemoveMidCex.stF 2 = .ok g' ∧
+    disconnectBlock { MW.Lemmas.RemoveMidCex.ctx with node := MW.Lemmas.RemoveMidCex.nodeB } s1 2 = .ok s' ∧
+    SubW "W2" ["A2"] g' s' := disconnect_ex
+
+/-- **remove_reorg_disconnect_below** (step 3, the disconnect half of a reorganisation, ANY number of blocks).  The
+    loops of reorg step 2 (disconnectDown, walkBack, the final disconnect) branch on heights, the synced-to table and the
+    block files only, so two successful runs stay in lock step; `J g k` is any ghost-side invariant "the ghost follows
+    the chain up to height `k`" that provides the ghost's tip height, `GhostCV`, `Reach` and is kept by the ghost's
+    disconnects (instance: `FJ`, `remove_flagged_follower_keeps`). -/
+theorem remove_reorg_disconnect_below {c : Ctx} {w : Wid} {addrs : List Addr} {J : Store → Nat → Prop}
+    (hOwn : OwnW c w addrs)
+    (hJs : ∀ g k, J g k → g.syncedTo = k ∧ GhostCV c g ∧ Reach g)
+    (hJd : ∀ g g' k, 0 < k → J g k → disconnectBlock c g k = .ok g' → J g' (k - 1))
+    {g s : Store} {best : BlockMeta} {nb : Block} {tc : List Block} {rg rs : Store × List Nat × List Block}
+    (hJ : J g best.height) (hSub : SubW w addrs g s) (hR : Reach s)
+    (hg : reorgDisconnect c g best nb tc = .ok rg) (hs : reorgDisconnect c s best nb tc = .ok rs) :
+    SubW w addrs rg.1 rs.1 ∧ Reach rs.1 ∧ rs.2 = rg.2 := reorgDisconnect_subW hOwn hJs hJd hJ hSub hR hg hs
+
+/-- **remove_connect_relaxed** (the connect half).  `filterBlock` for a ready set without `w`: if it succeeds on the
+    ghost it succeeds on the real store with the same confirmed ids, and the results are related by `SubW` again
+    (`remove_connect_simulation` with the wallet-keyed buckets of `w` free). -/
+theorem remove_connect_relaxed {w : Wid} {addrs : List Addr} {ready : List Wid} {c : Ctx} {g s g' : Store} {b : Block}
+    {conf : List TxId}
+    (hSub : SubW w addrs g s) (hnr : ready.contains w = false)
+    (hng : KeysNodup g.credits) (hns : KeysNodup s.credits)
+    (hF : Fresh ⟨b.height, b.id⟩ g) (hFs : AMap.get s.blocks b.height = none) (hC : CoinsOK addrs ready g)
+    (hfind : ∀ id, existCreditFromTx g id = true → (c.node.fetchTx id).isSome = true)
+    (hown : ∀ (id : TxId) (pt : Tx) (idx : Nat) (o : Out) (w' : Wid) (ch : Bool), existCreditFromTx g id = true →
+      existCreditFromTx s id = false → c.node.fetchTx id = some pt → pt.outs[idx]? = some o → o.cls ≠ .raw →
+      AMap.get c.own o.addr = some (w', ch) → ready.contains w' = false)
+    (hrel : ∀ a w' ch, AMap.get c.own a = some (w', ch) → ready.contains w' = true → addrs.contains a = false)
+    (hdeb : ∀ dk d, AMap.get g.debits dk = some d → d.2.blk ≠ ⟨b.height, b.id⟩)
+    (hg : filterBlock c g ready b = .ok (g', conf)) :
+    ∃ s', filterBlock c s ready b = .ok (s', conf) ∧ SubW w addrs g' s' ∧
+      KeysNodup s'.credits ∧ KeysNodup g'.credits ∧ CoinsOK addrs ready g' :=
+  filterBlock_simW hSub hnr hng hns hF hFs hC hfind hown hrel hdeb hg
+
+/-- **remove_finish_relaxed.**  The in-progress invariant with the buckets keyed by wallet id characterised OFF `w` only
+    (`MidUW`; `MidU` implies it): every step keeps it, the finishing step — which deletes every entry keyed by `w` —
+    gives C01's invariant for the context without the keystore, the worker loop likewise. -/
+theorem remove_finish_relaxed {c : Ctx} {w : Wid} {addrs : List Addr} {own' : Own} {chain : List Block} {U : Book}
+    (limit : Nat) (H : RemHyp c w addrs own' chain) (HU : UpperOK c w own' chain U) {s : Store}
+    (hM : MidUW c w addrs own' s chain U) (ws' : List Wid) (hws : ∀ x ∈ ws', x ∈ c.wallets)
+    {o : StepOut} (h : removeStep limit c w addrs s = some o) (hf : o.finish = true) :
+    Inv { c with own := own', wallets := ws' } o.s chain := finish_projects_UW limit H HU hM ws' hws h hf
+
+theorem remove_parked_relaxed {c : Ctx} {w : Wid} {addrs : List Addr} {own' : Own} {chain : List Block} {U : Book}
+    (limit : Nat) (H : RemHyp c w addrs own' chain) (HU : UpperOK c w own' chain U) {s : Store}
+    (hM : MidUW c w addrs own' s chain U) {o : StepOut} (h : removeStep limit c w addrs s = some o)
+    (hf : o.finish = false) : MidUW c w addrs own' o.s chain U := parked_step_UW limit H HU hM h hf
+
+/-- non-vacuity of the two: the concrete store of `MW.Lemmas.RemoveEx` satisfies `MidU`, hence `MidUW` -/
+example : MidUW MW.Lemmas.RemoveEx.ctx "W2" ["A2"] MW.Lemmas.RemoveEx.own' MW.Lemmas.RemoveEx.st MW.Lemmas.RemoveEx.chain
+    (bookOf MW.Lemmas.RemoveEx.ctx.p MW.Lemmas.RemoveEx.ctx.own MW.Lemmas.RemoveEx.chain) :=
+  midUW_of_midU (mid_to_midU (inv_to_mid MW.Lemmas.RemoveEx.remHyp MW.Lemmas.RemoveEx.inv MW.Lemmas.RemoveEx.st_nodup
+    MW.Lemmas.RemoveEx.st_pend))
+
+/-- **remove_disconnect_frame** — what `disconnectBlock` of the tip leaves alone, for ANY store: tx records, debits and
+    credits off the tip's height are unchanged (a credit may be un-spent because a debit at the tip's height pointing at
+    it went), nothing appears, the other block records stay and the tip's is gone. -/
+theorem remove_disconnect_frame {c : Ctx} {s s' : Store} {h : Nat} (hh : s.syncedTo = h)
+    (hd : disconnectBlock c s h = .ok s') :
+    RbFrame h s s' ∧ (∀ h', h' ≠ h → AMap.get s'.blocks h' = AMap.get s.blocks h') ∧ AMap.get s'.blocks h = none :=
+  disconnectBlock_frame hh hd
+
+end Round7
 
 -- ------------------------------------------------------------------ byte level (Round 4): id-prefix scans on real byte keys
 section Codec
